@@ -854,11 +854,67 @@ def l14(rep, w, prop='C17'):
                 continue
             n += 1
             roots = org.get(src['l'], ())
+            # an edit that keeps every line where it is: a helper of the command line that hands its argument back after replacing a fixed number
+            # of bytes by the same number of bytes, none of them a line break (`#!` -> `//`)
+            roots = [q for q in roots if not (q[0][0] == 'call' and q[0][1] not in reads and _keeps_lines(w, f, q[0][1], reads, org))]
             bad = sorted({q[0][2].rsplit('::', 1)[-1] for q in roots if q[0][0] == 'call' and q[0][1] not in reads} | {x for q in roots for x in q[1:] if x.startswith('#')})
+            if not roots and not bad:
+                r.ok('%s / the text interpreted is what read_to_string returned (edited in place, length and lines kept)' % f.path)
+                continue
             r.check(bool(roots) and not bad, '%s / the text interpreted is what read_to_string returned' % f.path,
                     '%s edits the file content before interpreting it (%s): line numbers of compile errors and traces no longer match the file' % (f.path, bad), f.loc(t.get('sp')))
     if n == 0:
         raise Broken(prop, 'anchor', 'no function of the command line both reads a file and interprets it')
+
+
+def _keeps_lines(w, f, call_block, reads, org):
+    t = f.blocks[call_block]['t']
+    g = w.fns.get(callee_name(t) or '')
+    if g is None or not t['args']:
+        return False
+    a0 = op_place(t['args'][0])
+    if a0 is None or not any(q[0][0] == 'call' and q[0][1] in reads for q in org.get(a0['l'], ())):
+        return False
+    gorg = origins(g)
+    if not gorg.get(0) or not all(q[0] == ('arg', 1) and not [x for x in q[1:] if x.startswith('#')] for q in gorg.get(0, ())):
+        return False
+    READ_ONLY = ('deref', 'starts_with', 'ends_with', 'len', 'is_empty', 'as_str', 'as_bytes', 'first', 'get', 'chars', 'next', 'eq', 'ne', 'is_char_boundary', 'find', 'as_ref', 'borrow')
+    for bi, t2 in g.calls(only_normal=True):
+        n = strip_generics(callee_name(t2) or '')
+        tail = n.rsplit('::', 1)[-1]
+        if tail in READ_ONLY:
+            continue
+        if tail == 'replace_range' and len(t2['args']) == 3:
+            defs = {}
+            for s_ in g.blocks[bi]['s']:
+                d = s_.get('d') or {}
+                if not d.get('p'):
+                    defs[d['l']] = s_['r']
+            rng = defs.get((op_place(t2['args'][1]) or {}).get('l'))
+            rep_ = op_place(t2['args'][2])
+            text = None
+            cur = defs.get(rep_['l']) if rep_ else None
+            for _ in range(3):
+                if cur is None:
+                    break
+                k = op_const(cur.get('o', {}) or {}) if cur.get('rv') == 'use' else None
+                if k is not None and 's' in k:
+                    text = k['s']
+                    break
+                nxt = cur.get('p') if cur.get('rv') == 'ref' else (op_place(cur.get('o', {}) or {}) if cur.get('rv') == 'use' else None)
+                cur = defs.get(nxt['l']) if nxt else None
+            if rng is None or rng.get('rv') != 'agg' or text is None:
+                return False
+            bounds = [(op_const(o) or {}).get('v') for o in rng.get('ops', [])]
+            if any(not isinstance(b_, int) for b_ in bounds):
+                return False
+            width = bounds[0] if (rng.get('adt') or '').endswith('RangeTo') else (bounds[1] - bounds[0] if len(bounds) == 2 else None)
+            lit = text[1:-1] if text.startswith('"') and text.endswith('"') else text
+            if width is None or '\\' in lit or len(lit.encode()) != width or '\n' in lit:
+                return False
+            continue
+        return False
+    return True
 
 
 def l15(rep, w, prop='C17'):
